@@ -55,6 +55,12 @@ func eval(in []*big.Int) []*big.Int {
 	case 4: // ip.DeriveGatewayIP
 		w, netv, plen := d.Int(), d.Big(), d.Int()
 		cidr := fmt.Sprintf("%s/%d", ipBytes(netv, w/8).String(), plen)
+		if w == 128 {
+			// eight hex groups: net.IP.String would print an address in ::ffff:0:0/96 in IPv4 notation
+			b := ipBytes(netv, 16)
+			cidr = fmt.Sprintf("%x:%x:%x:%x:%x:%x:%x:%x/%d", uint16(b[0])<<8|uint16(b[1]), uint16(b[2])<<8|uint16(b[3]), uint16(b[4])<<8|uint16(b[5]),
+				uint16(b[6])<<8|uint16(b[7]), uint16(b[8])<<8|uint16(b[9]), uint16(b[10])<<8|uint16(b[11]), uint16(b[12])<<8|uint16(b[13]), uint16(b[14])<<8|uint16(b[15]), plen)
+		}
 		gw := terwayip.DeriveGatewayIP(cidr)
 		if gw == "" {
 			return o.I(0).L
